@@ -28,12 +28,34 @@ pub struct Fsim {
 // ---------------------------------------------------------------------------------------------
 // Injected clock and rng
 
+/// `.0` is the time; `.1` is what a reading costs (the clock moves on by that much after every reading by the code under
+/// test, as any real clock does between two statements) and the readings handed out since the harness last cleared them.
 #[derive(Clone)]
-pub struct SimClock(pub Arc<Mutex<Duration>>);
+pub struct SimClock(pub Arc<Mutex<Duration>>, pub Arc<Mutex<(Duration, Vec<Duration>)>>);
+
+impl SimClock {
+    pub fn new(start: Duration) -> Self {
+        SimClock(Arc::new(Mutex::new(start)), Arc::new(Mutex::new((Duration::ZERO, Vec::new()))))
+    }
+    pub fn with_read_cost(start: Duration, cost: Duration) -> Self {
+        SimClock(Arc::new(Mutex::new(start)), Arc::new(Mutex::new((cost, Vec::new()))))
+    }
+    /// The readings handed out since the last call.
+    pub fn take_readings(&self) -> Vec<Duration> {
+        std::mem::take(&mut self.1.lock().unwrap().1)
+    }
+}
 
 impl emit::Clock for SimClock {
     fn now(&self) -> Option<emit::Timestamp> {
-        emit::Timestamp::from_unix(*self.0.lock().unwrap())
+        let mut t = self.0.lock().unwrap();
+        let reading = *t;
+        let mut c = self.1.lock().unwrap();
+        *t += c.0;
+        if c.1.len() < 64 {
+            c.1.push(reading);
+        }
+        emit::Timestamp::from_unix(reading)
     }
 }
 
@@ -161,6 +183,8 @@ pub struct Plan {
     pub clock_monotone: bool,
     /// a stranger in the directory whose name is not valid UTF-8
     pub raw_stranger: bool,
+    /// how far the clock moves on after every reading by the worker (zero: a clock that stands still within a batch)
+    pub read_cost: Duration,
 }
 
 fn payload(id: u32, len: usize) -> Vec<u8> {
@@ -399,6 +423,21 @@ pub fn gen_plan(ch: &mut Choices, mode: &str, thorough: bool) -> Plan {
         retries: 2 + ch.choose(4),
         clock_monotone,
         raw_stranger: c11 && ch.chance(1, 6),
+        // fault-free rolling runs only: under faults a retried attempt reads the clock again, and the reference policy
+        // of the fault engine is stated per batch
+        read_cost: if c11 {
+            match ch.weighted(&[8, 1, 1, 1, 1, 1, 1]) {
+                0 => Duration::ZERO,
+                1 => Duration::from_nanos(1),
+                2 => Duration::from_millis(1),
+                3 => Duration::from_millis(7),
+                4 => Duration::from_secs(1),
+                5 => Duration::from_secs(61),
+                _ => Duration::from_secs(3601),
+            }
+        } else {
+            Duration::ZERO
+        },
     }
 }
 
@@ -560,7 +599,7 @@ pub fn exec_plan(
         fs.lock().raw_entries.push((cfg.dir.clone(), raw));
         fs.lock().raw_entries.push((cfg.dir.clone(), b"\xff\xfe".to_vec()));
     }
-    let clock = SimClock(Arc::new(Mutex::new(plan.start)));
+    let clock = SimClock::with_read_cost(plan.start, plan.read_cost);
     let rng = SimRng(Arc::new(Mutex::new(Rng::new(plan.rng_seed))));
     let mut known = Known { events: BTreeMap::new() };
     for (_, body, foreign) in &plan.existing {
@@ -673,6 +712,7 @@ pub fn exec_plan(
                 }
                 let ts = *clock.0.lock().unwrap();
                 let (period, counter) = period_of(cfg.roll, ts);
+                let _ = clock.take_readings();
                 let mut batch = Batch::new();
                 if !cleared.is_empty() {
                     ex.probes.insert("batch_built_after_overflow_truncation");
@@ -918,8 +958,18 @@ pub fn exec_plan(
                                 if p != period {
                                     violate!("C11", "file_name_period", "created {c} while the clock reads period {period}");
                                 }
-                                if cnt != format!("{counter:08}") {
-                                    violate!("C11", "file_name_counter", "created {c}; {counter} ms into the period");
+                                // the name is that of one clock reading taken while the batch was written (a clock that
+                                // moves on between readings: period and counter must come from the same reading)
+                                let readings = clock.take_readings();
+                                if readings.len() > 1 {
+                                    ex.probes.insert("clock_read_more_than_once_in_a_batch");
+                                }
+                                let one_reading = readings.iter().chain(std::iter::once(&ts)).any(|r| {
+                                    let (pp, cc) = period_of(cfg.roll, *r);
+                                    p == pp && cnt == format!("{cc:08}")
+                                });
+                                if !one_reading {
+                                    violate!("C11", "file_name_counter", "created {c}; {counter} ms into the period {period} (clock readings during the batch: {readings:?})");
                                 }
                             }
                         }
